@@ -13,14 +13,20 @@ CHARS = list("AZaz09 \t\"$:") + ["\x0b", "\x0c", "\x1c", "\x1f", "\x85", "\xa0",
                                   "\x80", "\x81", "\xff", "\u0100"]   # the first code points that are not 7-bit
 
 
+LST_NAMES = [("prog.", "lst", ",a"), ("PROG.", "LST", ",A"), ("my.prog.v2.", "Lst", ",a"), (".", "lst", ",A"), ("a b.", "lsT", ",a")]
+
+
 def lst2bas(ctx, text):
     from moto_lst2bas.lst2bas import ListingToBasicCli
     d = ctx.fresh_dir()
-    p = os.path.join(d, "prog.lst")
+    # the name of the listing varies too (case of the extension, more dots, a dot-file): the converter finds the
+    # extension after the LAST dot, in either case, and writes <name minus 3 characters>bas
+    stem, ext, suffix = LST_NAMES[(len(text) + sum(map(ord, text[:8]))) % len(LST_NAMES)]
+    p = os.path.join(d, stem + ext)
     with open(p, "wb") as f:
         f.write(text.encode("utf-8"))
-    status, _ = run_cli(ListingToBasicCli().run, [p + ",a"])
-    bas = os.path.join(d, "prog.bas")
+    status, _ = run_cli(ListingToBasicCli().run, [p + suffix])
+    bas = os.path.join(d, stem + "bas")
     data = open(bas, "rb").read() if os.path.exists(bas) else None
     return status, data, d
 
